@@ -341,4 +341,8 @@ def run(tier):
     bad = {fd[1] for fd in ck3.findings}
     if not any("all_bad" in k for k in bad) or any("all_good" in k for k in bad):
         ck.closed_fail.append("R6 control failed: fixture reports %s" % sorted(bad))
+    # R8 (shared with C02 G5b; control there): the frames rebuilt from a saved state own their roots.  A caller frame whose registers are rooted in the
+    # VM's guard only loses them when the resumed callee returns into it - the uninterrupted run keeps them in the frame's own guard.
+    import c02
+    c02.guard_coherence(fx, ck, name="R8.rebuilt-frames-own-their-roots", prefix="interpreter::bytecode_vm::BytecodeVM::from_saved_state")
     return ck.finish()
